@@ -5,7 +5,7 @@ import c05, c06, c07
 
 PID = "C14"
 PROPS = "props/C14.v"
-GOTAB = ["ean.go", "code128.go", "code39.go"]
+GOTAB = ["ean.go", "code128.go", "code39.go", "codabar.go", "twooffive.go"]   # every gen table props/C14.vo depends on
 GOFILES = ["all.go", "c14.go"]
 EXTRACT = ["base", "utf8", "ean", "code128", "code39", "scale", "c14"]
 HANDLERS = ["h_ean.ml", "h_code128.ml", "h_code39.ml", "h_c14.ml"]
